@@ -29,6 +29,9 @@ theorem single_of_unmarked {a : Value} (h : a.isMarked = false) : Single a := by
   cases a with
   | mk t p => cases p <;> simp_all [Payload.unmark1, Payload.isMarked]
 
+theorem single_boolVal (x : Bool) : Single (boolVal x) := rfl
+theorem single_numVal (x : Num) : Single (numVal x) := rfl
+
 @[simp] theorem rbind_ok {β γ} (a : β) (f : β → Res γ) : Res.bind (.ok a) f = f a := rfl
 @[simp] theorem rbind_err {β γ} (c : String) (f : β → Res γ) : Res.bind (.err c) f = .err c := rfl
 @[simp] theorem rbind_panic {β γ} (c : String) (f : β → Res γ) : Res.bind (.panic c) f = .panic c := rfl
@@ -175,14 +178,321 @@ theorem or_fuel_eq (n : Nat) (a b : Value) (ha : Single a) (hb : Single b) : Val
   binary_tie Value_Or_fuel orU or_unmarked
     (fun n v w h => by rw [Value_Or_fuel]; simp [OpsGo.isMarked, h, OpsGo.unmark, OpsGo.withMarks, OpsGo.unionAll]) n a b ha hb
 
-/-! ### the entry points (`opsFuel` suffices) -/
+/-! ### Negate, Absolute, Divide -/
 
-theorem single_boolVal (x : Bool) : Single (boolVal x) := rfl
-theorem single_numVal (x : Num) : Single (numVal x) := rfl
+theorem float_neg_new (x : Num) : OpsGo.Float.neg OpsGo.Float.new x = Num.neg x := rfl
+theorem float_abs_new (x : Num) : OpsGo.Float.abs OpsGo.Float.new x = Num.abs x := rfl
+theorem float_add_new (x y : Num) : OpsGo.Float.add OpsGo.Float.new x y = Num.add x y := rfl
+theorem float_quo_new (x y : Num) : OpsGo.Float.quo OpsGo.Float.new x y = Num.quo x y := rfl
+
+theorem neg_unmarked (n : Nat) (a : Value) (h : a.isMarked = false) : Value_Negate_fuel (n + 1) a = negU a := by
+  rw [Value_Negate_fuel]
+  simp only [OpsGo.isMarked, h, after_typeCheck, negU, mbind_eq]
+  cases Value.typeCheck .number [a] with
+  | ok tc => cases tc <;> simp [tail_num_dyn, tail_num_unk, OpsGo.asFloat, float_neg_new] <;> (cases asNum a <;> rfl)
+  | err e => rfl
+  | panic w => rfl
+  | unmodelled => rfl
+
+/-- `Value.Negate`, translated, is the hand-written `Value.neg` -/
+theorem neg_fuel_eq (n : Nat) (a : Value) (ha : Single a) : Value_Negate_fuel (n + 2) a = Value.neg a :=
+  unary_tie Value_Negate_fuel negU neg_unmarked
+    (fun n v h => by rw [Value_Negate_fuel]; simp [OpsGo.isMarked, h, OpsGo.unmark, OpsGo.withMarks, OpsGo.unionAll]) n a ha
+
+theorem abs_tail_dyn : (Res.bind (forceShortCircuitType (some dynVal) .number) fun p =>
+    Res.bind (OpsGo.deref p) fun d => Res.bind (OpsGo.refine d) fun b0 => Res.bind (OpsGo.Builder.notNull' b0) fun b1 =>
+    Res.bind (OpsGo.Builder.numberRangeInclusive b1 zeroVal (unknown .number)) fun b2 => OpsGo.Builder.newValue b2) =
+    .ok ⟨.number, .unk (.num .f (some ⟨.fin false 0 0 53, true⟩) none)⟩ := rfl
+theorem abs_tail_unk : (Res.bind (forceShortCircuitType (some (unknown .number)) .number) fun p =>
+    Res.bind (OpsGo.deref p) fun d => Res.bind (OpsGo.refine d) fun b0 => Res.bind (OpsGo.Builder.notNull' b0) fun b1 =>
+    Res.bind (OpsGo.Builder.numberRangeInclusive b1 zeroVal (unknown .number)) fun b2 => OpsGo.Builder.newValue b2) =
+    .ok ⟨.number, .unk (.num .f (some ⟨.fin false 0 0 53, true⟩) none)⟩ := by
+  rw [force_number]; rfl
+
+theorem abs_unmarked (n : Nat) (a : Value) (h : a.isMarked = false) : Value_Absolute_fuel (n + 1) a = absU a := by
+  rw [Value_Absolute_fuel]
+  simp only [OpsGo.isMarked, h, after_typeCheck, absU, mbind_eq]
+  cases Value.typeCheck .number [a] with
+  | ok tc => cases tc <;> simp [abs_tail_dyn, abs_tail_unk, OpsGo.asFloat, float_abs_new] <;> (cases asNum a <;> rfl)
+  | err e => rfl
+  | panic w => rfl
+  | unmodelled => rfl
+
+/-- `Value.Absolute`, translated, is the hand-written `Value.abs` -/
+theorem abs_fuel_eq (n : Nat) (a : Value) (ha : Single a) : Value_Absolute_fuel (n + 2) a = Value.abs a :=
+  unary_tie Value_Absolute_fuel absU abs_unmarked
+    (fun n v h => by rw [Value_Absolute_fuel]; simp [OpsGo.isMarked, h, OpsGo.unmark, OpsGo.withMarks, OpsGo.unionAll]) n a ha
+
+theorem div_unmarked (n : Nat) (a b : Value) (ha : a.isMarked = false) (hb : b.isMarked = false) :
+    Value_Divide_fuel (n + 1) a b = divU a b := by
+  rw [Value_Divide_fuel]
+  simp only [OpsGo.isMarked, ha, hb, after_typeCheck, divU, mbind_eq]
+  cases Value.typeCheck .number [a, b] with
+  | ok tc =>
+    cases tc <;> simp [tail_num_dyn, tail_num_unk, OpsGo.asFloat, float_quo_new]
+  | err e => rfl
+  | panic w => rfl
+  | unmodelled => rfl
+
+/-- `Value.Divide`, translated, is the hand-written `Value.div` -/
+theorem div_fuel_eq (n : Nat) (a b : Value) (ha : Single a) (hb : Single b) : Value_Divide_fuel (n + 2) a b = Value.div a b :=
+  binary_tie Value_Divide_fuel divU div_unmarked
+    (fun n v w h => by rw [Value_Divide_fuel]; simp [OpsGo.isMarked, h, OpsGo.unmark, OpsGo.withMarks, OpsGo.unionAll]) n a b ha hb
+
+/-! ### Add, Subtract, Multiply: range arithmetic on the short circuit -/
+
+theorem refine_tail (lo hi : Option Num) :
+    (Res.bind (OpsGo.refineWith (unknown .number) ⟨lo, hi⟩) OpsGo.refineNotNull) = .ok (numRangeResult lo hi) := by
+  cases lo <;> cases hi <;> rfl
+
+/-- `shortCircuit.RefineWith(numericRangeArithmetic(Value.M, val.Range(), other.Range())).RefineNotNull()` is the
+hand-written `rangeArithC` with the corner analysis of `M` -/
+theorem range_arith_tie (m : OpsGo.Method) (a b : Value) :
+    (Res.bind (OpsGo.range a) fun ra => Res.bind (OpsGo.range b) fun rb =>
+      Res.bind (OpsGo.numericRangeArithmetic m ra rb) fun r =>
+      Res.bind (OpsGo.refineWith (unknown .number) r) fun x => OpsGo.refineNotNull x) = rangeArithC m.corner a b := by
+  unfold rangeArithC OpsGo.numericRangeArithmetic OpsGo.range
+  simp only [mbind_eq, Res.pure_eq]
+  cases a.range <;> simp
+  cases b.range <;> simp
+  rename_i ra rb
+  cases ra.numLower <;> simp
+  cases ra.numUpper <;> simp
+  cases rb.numLower <;> simp
+  cases rb.numUpper <;> simp
+  exact refine_tail _ _
+
+theorem arith_tail_dyn (m : OpsGo.Method) (a b : Value) :
+    (Res.bind (forceShortCircuitType (some dynVal) .number) fun p => Res.bind (OpsGo.deref p) fun d =>
+      Res.bind (OpsGo.range a) fun ra => Res.bind (OpsGo.range b) fun rb =>
+      Res.bind (OpsGo.numericRangeArithmetic m ra rb) fun r =>
+      Res.bind (OpsGo.refineWith d r) fun x => OpsGo.refineNotNull x) = rangeArithC m.corner a b := by
+  rw [force_dyn]; exact range_arith_tie m a b
+theorem arith_tail_unk (m : OpsGo.Method) (a b : Value) :
+    (Res.bind (forceShortCircuitType (some (unknown .number)) .number) fun p => Res.bind (OpsGo.deref p) fun d =>
+      Res.bind (OpsGo.range a) fun ra => Res.bind (OpsGo.range b) fun rb =>
+      Res.bind (OpsGo.numericRangeArithmetic m ra rb) fun r =>
+      Res.bind (OpsGo.refineWith d r) fun x => OpsGo.refineNotNull x) = rangeArithC m.corner a b := by
+  rw [force_number]; exact range_arith_tie m a b
+
+theorem add_unmarked (n : Nat) (a b : Value) (ha : a.isMarked = false) (hb : b.isMarked = false) :
+    Value_Add_fuel (n + 1) a b = addU a b := by
+  rw [Value_Add_fuel]
+  simp only [OpsGo.isMarked, ha, hb, after_typeCheck, addU, mbind_eq]
+  cases Value.typeCheck .number [a, b] with
+  | ok tc =>
+    cases tc <;> simp [arith_tail_dyn, arith_tail_unk, OpsGo.asFloat, float_add_new, rangeArith, OpsGo.Method.corner]
+  | err e => rfl
+  | panic w => rfl
+  | unmodelled => rfl
+
+/-- `Value.Add`, translated, is the hand-written `Value.add` -/
+theorem add_fuel_eq (n : Nat) (a b : Value) (ha : Single a) (hb : Single b) : Value_Add_fuel (n + 2) a b = Value.add a b :=
+  binary_tie Value_Add_fuel addU add_unmarked
+    (fun n v w h => by rw [Value_Add_fuel]; simp [OpsGo.isMarked, h, OpsGo.unmark, OpsGo.withMarks, OpsGo.unionAll]) n a b ha hb
+
+/-! ### what a passed type check says about the operands -/
+
+/-- an operand that `typeCheck` lets through as a known value of the required type -/
+def Plain (req : Ty) (v : Value) : Prop := v.ty.isDyn = false ∧ v.ty.equals req = true ∧ v.isUnk = false
+
+theorem tc1_none {req : Ty} {a : Value} : Value.typeCheck req [a] = .ok .none ↔ Plain req a := by
+  unfold Plain
+  cases h1 : a.ty.isDyn <;> cases h2 : a.ty.equals req <;> cases h3 : a.isUnk <;>
+    simp [Value.typeCheck, Value.typeCheckAux, h1, h2, h3]
+
+theorem tc2_none {req : Ty} {a b : Value} : Value.typeCheck req [a, b] = .ok .none ↔ Plain req a ∧ Plain req b := by
+  unfold Plain
+  cases h1 : a.ty.isDyn <;> cases h2 : a.ty.equals req <;> cases h3 : a.isUnk <;>
+    cases h4 : b.ty.isDyn <;> cases h5 : b.ty.equals req <;> cases h6 : b.isUnk <;>
+    simp [Value.typeCheck, Value.typeCheckAux, h1, h2, h3, h4, h5, h6]
+
+theorem plain_numVal (z : Num) : Plain .number (numVal z) := by
+  simp [Plain, numVal, Ty.isDyn, Ty.equals, Value.isUnk]
+
+theorem asNum_or (v : Value) : (∃ x, asNum v = .ok x) ∨ asNum v = .panic "payload is not a number" := by
+  unfold asNum; split <;> simp
+
+theorem unmarks_of (g : Value → Res Value) (a : Value) (h : a.isMarked = false) : unMarks g a = g a := by
+  simp [unMarks, h]
+theorem binmarks_of (g : Value → Value → Res Value) (a b : Value) (ha : a.isMarked = false) (hb : b.isMarked = false) :
+    binMarks g a b = g a b := by
+  simp [binMarks, ha, hb]
+
+/-! ### Subtract: `val.Add(other.Negate())` on known operands -/
+
+theorem sub_unmarked (n : Nat) (a b : Value) (ha : a.isMarked = false) (hb : b.isMarked = false) :
+    Value_Subtract_fuel (n + 1) a b = subU a b := by
+  rw [Value_Subtract_fuel]
+  simp only [OpsGo.isMarked, ha, hb, after_typeCheck, subU, mbind_eq]
+  cases htc : Value.typeCheck .number [a, b] with
+  | ok tc =>
+    cases tc <;> simp [arith_tail_dyn, arith_tail_unk, rangeArith, OpsGo.Method.corner]
+    obtain ⟨pa, pb⟩ := tc2_none.mp htc
+    have hneg : Value_Negate b = Res.bind (asNum b) fun y => .ok (numVal (Num.neg y)) := by
+      rw [show Value_Negate b = Value_Negate_fuel 4 b from rfl, neg_fuel_eq 2 b (single_of_unmarked hb), Value.neg,
+        unmarks_of _ _ hb, negU, tc1_none.mpr pb]
+      simp
+    have hadd : ∀ z, Value_Add a (numVal z) = Res.bind (asNum a) fun x => Res.bind (Num.add x z) fun r => .ok (numVal r) := by
+      intro z
+      rw [show Value_Add a (numVal z) = Value_Add_fuel 4 a (numVal z) from rfl,
+        add_fuel_eq 2 a _ (single_of_unmarked ha) (single_numVal z), Value.add, binmarks_of _ _ _ ha rfl, addU,
+        tc2_none.mpr ⟨pa, plain_numVal z⟩]
+      simp [asNum, numVal]
+    rw [hneg]
+    rcases asNum_or a with ⟨x, hx⟩ | hx <;> rcases asNum_or b with ⟨y, hy⟩ | hy <;> simp [hx, hy, hadd, Num.sub]
+  | err e => rfl
+  | panic w => rfl
+  | unmodelled => rfl
+
+/-- `Value.Subtract`, translated, is the hand-written `Value.sub` -/
+theorem sub_fuel_eq (n : Nat) (a b : Value) (ha : Single a) (hb : Single b) : Value_Subtract_fuel (n + 2) a b = Value.sub a b :=
+  binary_tie Value_Subtract_fuel subU sub_unmarked
+    (fun n v w h => by rw [Value_Subtract_fuel]; simp [OpsGo.isMarked, h, OpsGo.unmark, OpsGo.withMarks, OpsGo.unionAll]) n a b ha hb
+
+/-! ### Multiply: 512-bit product, then the larger of the operand precisions and `MinPrec` -/
+
+theorem max_ite (p q k : Nat) :
+    (if (if p < q then q else p) < k then k else (if p < q then q else p)) = max (max p q) k := by
+  simp only [Nat.max_def]
+  (repeat' split) <;> omega
+
+theorem mul_float (x y : Num) :
+    (Res.bind (OpsGo.Float.mul (OpsGo.Float.setPrec OpsGo.Float.new 512) x y) fun r =>
+      Res.ok (numVal (OpsGo.Float.setPrec r
+        (if (if Num.prec x < Num.prec y then Num.prec y else Num.prec x) < Num.minPrec r then Num.minPrec r
+         else (if Num.prec x < Num.prec y then Num.prec y else Num.prec x))))) =
+    Res.bind (Num.mulCty x y) fun r => .ok (numVal r) := by
+  have h512 : (OpsGo.Float.setPrec OpsGo.Float.new 512).prec = 512 := by decide
+  simp only [OpsGo.Float.mul, h512, max_ite]
+  rw [if_neg (by decide : ¬ (512 : Nat) = 0)]
+  cases x with
+  | inf nx =>
+    cases y with
+    | inf ny => simp [Num.mulP, Num.mulCty, OpsGo.Float.setPrec]
+    | fin ny my ey py =>
+      simp only [Num.mulP, Num.mulCty]
+      by_cases hm : my = 0 <;> simp [hm, OpsGo.Float.setPrec]
+  | fin nx mx ex px =>
+    cases y with
+    | inf ny =>
+      simp only [Num.mulP, Num.mulCty]
+      by_cases hm : mx = 0 <;> simp [hm, OpsGo.Float.setPrec]
+    | fin ny my ey py =>
+      simp only [Num.mulP, Num.mulCty, rbind_ok]
+      generalize hr : Num.round (nx != ny) (mx * my) (ex + ey) 512 = r
+      have hfin : ∃ n m e, r = .fin n m e 512 := by rw [← hr]; exact ⟨_, _, _, rfl⟩
+      obtain ⟨n, m, e, rfl⟩ := hfin
+      simp only [OpsGo.Float.setPrec]
+      split
+      · rfl
+      · rename_i h; exact absurd (by simp only [Num.minPrec]; omega) h
+
+theorem mul_unmarked (n : Nat) (a b : Value) (ha : a.isMarked = false) (hb : b.isMarked = false) :
+    Value_Multiply_fuel (n + 1) a b = mulU a b := by
+  rw [Value_Multiply_fuel]
+  simp only [OpsGo.isMarked, ha, hb, after_typeCheck, mulU, mbind_eq]
+  cases htc : Value.typeCheck .number [a, b] with
+  | ok tc =>
+    cases tc <;> simp [arith_tail_dyn, arith_tail_unk, OpsGo.Method.corner, OpsGo.rawEqualsZero]
+    rcases asNum_or a with ⟨x, hx⟩ | hx <;> rcases asNum_or b with ⟨y, hy⟩ | hy <;> simp [OpsGo.asFloat, hx, hy, mul_float]
+  | err e => rfl
+  | panic w => rfl
+  | unmodelled => rfl
+
+/-- `Value.Multiply`, translated, is the hand-written `Value.mul` -/
+theorem mul_fuel_eq (n : Nat) (a b : Value) (ha : Single a) (hb : Single b) : Value_Multiply_fuel (n + 2) a b = Value.mul a b :=
+  binary_tie Value_Multiply_fuel mulU mul_unmarked
+    (fun n v w h => by rw [Value_Multiply_fuel]; simp [OpsGo.isMarked, h, OpsGo.unmark, OpsGo.withMarks, OpsGo.unionAll]) n a b ha hb
+
+/-! ### Modulo -/
+
+theorem isNumber_of_equals {t : Ty} (h : t.equals .number = true) : t.isNumber = true := by
+  cases t <;> simp_all [Ty.equals, Ty.isNumber]
+
+theorem inf_tests (v : Value) (h : v.ty.isNumber = true) :
+    (OpsGo.rawEqualsPosInf v || OpsGo.rawEqualsNegInf v) = (match v.v with | .n x => x.isInf | _ => false) := by
+  simp only [OpsGo.rawEqualsPosInf, OpsGo.rawEqualsNegInf, h, Bool.true_and]
+  cases v.v <;> simp
+  rename_i x
+  cases x with
+  | fin _ _ _ _ => simp [Num.isInf]
+  | inf s => cases s <;> simp [Num.isInf]
+
+theorem setIntP_fin (q : Int) (p : Nat) : ∃ n m e pw, Num.setIntP q p = .fin n m e pw ∧ pw ≠ 0 := by
+  refine ⟨_, _, _, (if p = 0 then max (Num.bitlen q.natAbs) 64 else p), rfl, ?_⟩
+  split <;> omega
+
+theorem mod_unmarked (n : Nat) (a b : Value) (ha : a.isMarked = false) (hb : b.isMarked = false) :
+    Value_Modulo_fuel (n + 1) a b = modU a b := by
+  rw [Value_Modulo_fuel]
+  simp only [OpsGo.isMarked, ha, hb, after_typeCheck, modU, mbind_eq]
+  cases htc : Value.typeCheck .number [a, b] with
+  | ok tc =>
+    cases tc
+    case dynamic => simp [tail_num_dyn]
+    case unknown => simp [tail_num_unk]
+    dsimp only
+    obtain ⟨pa, pb⟩ := tc2_none.mp htc
+    have na := isNumber_of_equals pa.2.1
+    have nb := isNumber_of_equals pb.2.1
+    have hmul : Value_Multiply a b = Res.bind (asNum a) fun x => Res.bind (asNum b) fun y => Res.bind (Num.mulCty x y) fun r => .ok (numVal r) := by
+      rw [show Value_Multiply a b = Value_Multiply_fuel 4 a b from rfl,
+        mul_fuel_eq 2 a b (single_of_unmarked ha) (single_of_unmarked hb), Value.mul, binmarks_of _ _ _ ha hb, mulU, htc]
+      simp
+    have hdiv : Value_Divide a b = Res.bind (asNum a) fun x => Res.bind (asNum b) fun y => Res.bind (Num.quo x y) fun r => .ok (numVal r) := by
+      rw [show Value_Divide a b = Value_Divide_fuel 4 a b from rfl,
+        div_fuel_eq 2 a b (single_of_unmarked ha) (single_of_unmarked hb), Value.div, binmarks_of _ _ _ ha hb, divU, htc]
+      simp
+    rw [Bool.or_assoc (OpsGo.rawEqualsPosInf a || OpsGo.rawEqualsNegInf a), inf_tests a na, inf_tests b nb, hmul, hdiv]
+    simp only [OpsGo.rawEqualsZero, Value.rawEqualsZero, nb, Bool.true_and]
+    cases hav : a.v <;> cases hbv : b.v <;> simp [asNum, hav, hbv, OpsGo.asFloat, numVal]
+    rename_i x y
+    cases y with
+    | inf s => simp [Num.isInf]
+    | fin ny my ey py =>
+      cases x with
+      | inf sx => simp [Num.isInf]
+      | fin nx mx ex px =>
+      simp only [Num.isInf]
+      simp only [Bool.or_false, Bool.false_eq_true, if_false, or_self]
+      by_cases hz : (Num.fin ny my ey py).isZero = true
+      · rw [if_pos hz, if_pos hz]
+      rw [if_neg hz, if_neg hz]
+      cases hq : Num.quo (Num.fin nx mx ex px) (Num.fin ny my ey py) <;> simp
+      rename_i rat
+      simp only [OpsGo.Float.int]
+      cases ht : rat.truncInt <;> simp
+      rename_i q
+      simp only [OpsGo.Float.copy, OpsGo.Float.setInt]
+      obtain ⟨nw, mw, ew, pw, hw, hpw⟩ := setIntP_fin q (Num.fin nx mx ex px).prec
+      rw [hw]
+      simp only [OpsGo.Float.mul, Num.prec, hpw, if_false, Num.mulP, rbind_ok]
+      generalize hr : Num.round (ny != nw) (my * mw) (ey + ew) pw = r
+      have hfin : ∃ n' m' e', r = .fin n' m' e' pw := by rw [← hr]; exact ⟨_, _, _, rfl⟩
+      obtain ⟨n', m', e', rfl⟩ := hfin
+      simp [OpsGo.Float.sub, Num.prec, hpw]
+  | err e => rfl
+  | panic w => rfl
+  | unmodelled => rfl
+
+/-- `Value.Modulo`, translated, is the hand-written `Value.mod` -/
+theorem mod_fuel_eq (n : Nat) (a b : Value) (ha : Single a) (hb : Single b) : Value_Modulo_fuel (n + 2) a b = Value.mod a b :=
+  binary_tie Value_Modulo_fuel modU mod_unmarked
+    (fun n v w h => by rw [Value_Modulo_fuel]; simp [OpsGo.isMarked, h, OpsGo.unmark, OpsGo.withMarks, OpsGo.unionAll]) n a b ha hb
+
+/-! ### the entry points (`opsFuel` suffices) -/
 
 theorem not_eq (a : Value) (ha : Single a) : Value_Not a = Value.not a := not_fuel_eq 2 a ha
 theorem and_eq (a b : Value) (ha : Single a) (hb : Single b) : Value_And a b = Value.and a b := and_fuel_eq 2 a b ha hb
 theorem or_eq (a b : Value) (ha : Single a) (hb : Single b) : Value_Or a b = Value.or a b := or_fuel_eq 2 a b ha hb
+theorem neg_eq (a : Value) (ha : Single a) : Value_Negate a = Value.neg a := neg_fuel_eq 2 a ha
+theorem abs_eq (a : Value) (ha : Single a) : Value_Absolute a = Value.abs a := abs_fuel_eq 2 a ha
+theorem div_eq (a b : Value) (ha : Single a) (hb : Single b) : Value_Divide a b = Value.div a b := div_fuel_eq 2 a b ha hb
+theorem add_eq (a b : Value) (ha : Single a) (hb : Single b) : Value_Add a b = Value.add a b := add_fuel_eq 2 a b ha hb
+theorem sub_eq (a b : Value) (ha : Single a) (hb : Single b) : Value_Subtract a b = Value.sub a b := sub_fuel_eq 2 a b ha hb
+theorem mul_eq (a b : Value) (ha : Single a) (hb : Single b) : Value_Multiply a b = Value.mul a b := mul_fuel_eq 2 a b ha hb
+theorem mod_eq (a b : Value) (ha : Single a) (hb : Single b) : Value_Modulo a b = Value.mod a b := mod_fuel_eq 2 a b ha hb
 
 end OpsFnsTie
 end CtyModel
